@@ -2,16 +2,43 @@
   Props/C02.lean — property C02: "the optimizer preserves success/failure and the parse tree".
 
   Stated inside L0 (`Spec.lean`), fuel-independently (`L0.Conv`): for every pass list drawn from the
-  exported default passes, every start rule, input, start position and result `r` (success with
-  its end state and pairs, failure, or the `KeyError` of an undefined reference), the grammar
-  `g` has meaning `r` iff the optimized grammar `g'` has.  The optimizer is `Opt.lean`, the mirror
-  of `Optimizer.optimize` that the correspondence run compares tree-for-tree with the real one.
+  exported default passes (any subset, order, repetition), every start rule, input, start
+  position inside the input and result `r` (success with its end state and pairs, failure, or the
+  `KeyError` of an undefined reference), the grammar `g` has meaning `r` iff the optimized
+  grammar `g'` has.  The optimizer is `Opt.lean`, the mirror of `Optimizer.optimize` that the
+  correspondence run compares tree-for-tree with the real one; L0 is what the interpreter (C03)
+  and the generated code (C01) are proved to implement, for un-optimized and optimized rule
+  tables alike — so the two readings of the property ("interpreted", "generated from the
+  optimized rules") are the corollaries `opt_interp_agrees`, `optgen_agrees` below.
 
-  The hypotheses `OptS.WF` on the un-optimized grammar are spelled out below (`wf_*`); each one
-  is needed (see the findings in the report) and holds of every grammar the front end builds
-  that does not fall under one of the findings.
+  The statement is an equivalence, so it also says: the optimized parser terminates exactly when
+  the un-optimized one does.  L0 has no tags; "the same parse tree" is up to tags.
+
+  ## Hypotheses (`WF`, decided by the executable `wfCheck`)
+  The optimizer is *not* sound for every rule table; each hypothesis below excludes a concrete
+  counterexample (see the `example`s at the end; all confirmed on the real code).  Every grammar
+  shipped with the repository (examples/, tests/grammars/) satisfies `wfCheck`.
+  * `nodes`  (`NodeOK` of every node of every rule body)
+      - embedded rule objects are the built-ins: silent (except `EOI`), never atomic / compound /
+        non-atomic, their body is not directly another rule object or a reference, `ANY` is
+        `_Any`, a Unicode property rule carries its own name
+                                       — what `inline_builtin` / `squash` / `skip` assume;
+      - no reference *by name* to `ANY` or `SKIP` (the front end embeds the built-in objects);
+      - **an untagged reference to a silent rule that switches atomicity (a silent `WHITESPACE` /
+        `COMMENT` referenced explicitly) occurs only in a rule that is itself atomic (`@`, `$`,
+        trivia)**: `inline_silent_rules` copies the body of the trivia rule, which then runs with
+        implicit trivia *on* if the referring rule is not atomic;
+      - a `Choice` is not empty, a range is not reversed (neither can be loaded), an
+        `OptimizedChoice` (optimizer-made) is non-empty, non-repeating, without reversed ranges.
+  * `noSkip`  no grammar rule is called `SKIP` (`_is_atomic` treats any rule of that name as atomic).
+  * `notp`    `_skip`'s walk from the operand of a negative predicate (through groups, choices,
+              references) meets no `Repeat`/`SkipUntil`: otherwise `!x`, with `x` itself rewritten
+              to `SkipUntil` earlier in the same pass, is collected as "skip until x's strings".
+  * `wsProgress`  if `WHITESPACE` is fused, no alternative is the empty string (the un-optimized
+              `parse_trivia` loop does not end on it, the fused regex does).
+  * `k ≤ inp.size`  (`SkipUntil.parse` moves a position beyond the input *back* to its end).
 -/
-import PestModel.Lemmas.OptSoundMain
+import PestModel.Lemmas.OptSoundFinal
 import PestModel.Props.C03
 import PestModel.Props.C01
 
@@ -20,40 +47,278 @@ namespace C02
 
 open L0 OptS
 
-/-! ### stage S2: unroll, inline_builtin, inline_silent_rules and the COMMENT fusion -/
+/-- the hypotheses on the un-optimized grammar (all passes) -/
+abbrev WF (g : Grammar) : Prop := OptS.WF OptS.Fall g
 
-def F0 : Feat := ⟨false, false⟩
+/-- the hypotheses can be evaluated -/
+theorem wf_of_check {g : Grammar} (h : wfCheck g = true) : WF g := wfCheck_sound h
 
-theorem builders0 (sg : String → Option (String × Nat)) (g : Grammar) : Builders F0 sg g :=
-  ⟨fun h => absurd h (by decide), fun h => absurd h (by decide), fun h => absurd h (by decide),
-   fun h => absurd h (by decide), fun h => absurd h (by decide)⟩
+/-- the start state of `Parser.parse(start_rule, text, start_pos=k)` -/
+abbrev s0 (k : Nat) : S0 := ⟨k, [], false⟩
 
-/-- no WHITESPACE-only fusion: either no `WHITESPACE` rule or also a `COMMENT` rule -/
-def NoWSFusion (g : Grammar) : Prop := g.lookup "WHITESPACE" = none ∨ g.lookup "COMMENT" ≠ none
+/-- **C02.**  The optimized grammar means what the un-optimized one means. -/
+theorem optimizer_sound (g g' : Grammar) (passes : List Opt.Pass)
+    (hp : ∀ p ∈ passes, p ∈ Opt.defaultPasses) (hwf : WF g) (h : Opt.optimize g passes = some g') :
+    ∀ (start : String) (_ : g.lookup start ≠ none) (inp : Input) (k : Nat) (_ : k ≤ inp.size) (r : R0),
+      Conv g inp (.ident start none) (s0 k) r ↔ Conv g' inp (.ident start none) (s0 k) r := by
+  intro start hs inp k hk r
+  exact (optimize_sound hwf passes hp h).1 inp _ _ r (NSR_start hwf hs) hk
 
-theorem fusionWS_of_none {g : Grammar} (h : NoWSFusion g) : FusionWS g := by
-  intro wr es alts hc hw
-  rcases h with h | h
-  · rw [h] at hw; exact absurd hw (by simp)
-  · exact absurd hc h
+/-- the fused trivia rule of the optimized grammar cannot fail, so C03 / C01 apply to it -/
+theorem optimized_skip_total (g g' : Grammar) (passes : List Opt.Pass)
+    (hp : ∀ p ∈ passes, p ∈ Opt.defaultPasses) (hwf : WF g) (h : Opt.optimize g passes = some g') :
+    SkipTotal g' :=
+  (optimize_sound hwf passes hp h).2
 
-theorem optimizer_sound_partial (g g' : Grammar) (passes : List Opt.Pass)
-    (hp : ∀ p ∈ passes, p ∈ Opt.defaultPasses ∧ p.name ≠ .squashChoice ∧ p.name ≠ .skip)
-    (hwf : WF F0 g) (hnw : NoWSFusion g) (h : Opt.optimize g passes = some g') :
-    ∀ (start : String) (_ : g.lookup start ≠ none) (inp : Input) (k : Nat) (r : R0),
-      Conv g inp (.ident start none) ⟨k, [], false⟩ r ↔ Conv g' inp (.ident start none) ⟨k, [], false⟩ r := by
-  intro start hs inp k r
-  have := optimize_sound_of (F := F0) hwf (fusionWS_of_none hnw) (fun h => absurd h (by decide))
-    (fun sg => builders0 sg g) passes
-    (fun p hpm => ⟨(hp p hpm).1, fun h => absurd h (hp p hpm).2.1, fun h => absurd h (hp p hpm).2.2⟩) h
-  exact this.1 inp _ _ r (NSR_start hwf hs)
+/-- the same for every expression that does not mention `SKIP`, from every state inside the input -/
+theorem optimizer_sound_expr (g g' : Grammar) (passes : List Opt.Pass)
+    (hp : ∀ p ∈ passes, p ∈ Opt.defaultPasses) (hwf : WF g) (h : Opt.optimize g passes = some g')
+    (inp : Input) (e : Expr) (he : NSR e) (s : S0) (hs : s.pos ≤ inp.size) (r : R0) :
+    Conv g inp e s r ↔ Conv g' inp e s r :=
+  (optimize_sound hwf passes hp h).1 inp e s r he hs
 
-theorem optimized_skip_total_partial (g g' : Grammar) (passes : List Opt.Pass)
-    (hp : ∀ p ∈ passes, p ∈ Opt.defaultPasses ∧ p.name ≠ .squashChoice ∧ p.name ≠ .skip)
-    (hwf : WF F0 g) (hnw : NoWSFusion g) (h : Opt.optimize g passes = some g') : SkipTotal g' :=
-  (optimize_sound_of (F := F0) hwf (fusionWS_of_none hnw) (fun h => absurd h (by decide))
-    (fun sg => builders0 sg g) passes
-    (fun p hpm => ⟨(hp p hpm).1, fun h => absurd h (hp p hpm).2.1, fun h => absurd h (hp p hpm).2.2⟩) h).2
+/-- without the `skip` pass the hypothesis `notp` is not needed -/
+theorem optimizer_sound_noskip (g g' : Grammar) (passes : List Opt.Pass)
+    (hp : ∀ p ∈ passes, p ∈ Opt.defaultPasses ∧ p.name ≠ .skip) (hwf : OptS.WF ⟨true, false⟩ g)
+    (h : Opt.optimize g passes = some g') :
+    ∀ (start : String) (_ : g.lookup start ≠ none) (inp : Input) (k : Nat) (_ : k ≤ inp.size) (r : R0),
+      Conv g inp (.ident start none) (s0 k) r ↔ Conv g' inp (.ident start none) (s0 k) r := by
+  intro start hs inp k hk r
+  have B : ∀ sg, Builders ⟨true, false⟩ sg g := fun sg =>
+    ⟨fun _ => squashSem, fun h => absurd h (by decide),
+     fun hF G hu hinv fa a e he => squashChoice_TR (sg := ⟨sg, fa⟩) G hu hF hinv a e he,
+     fun h => absurd h (by decide), fun h => absurd h (by decide)⟩
+  have := optimize_sound_of (F := ⟨true, false⟩) hwf (fusionWS hwf hwf.wsProgress)
+    (fun h => absurd h (by decide)) B passes
+    (fun p hpm => ⟨(hp p hpm).1, fun _ => rfl, fun h => absurd h (hp p hpm).2⟩) h
+  exact this.1 inp _ _ r (NSR_start hwf hs) hk
+
+/-! ### "interpreted" and "generated from the optimized rules" -/
+
+theorem parse_eq_run (g : Grammar) (inp : Input) (fuel : Nat) (start : String) (k : Nat) :
+    L0.parse g inp fuel start k = run g inp (fuel + 1) (.ident start none) (s0 k) := by
+  show _ = callRule g (run g inp fuel) start (s0 k)
+  unfold L0.parse callRule
+  cases g.lookup start <;> rfl
+
+/-- **The interpreter on the optimized rules.**  Whatever `Parser.parse` answers with the
+    optimized rule table — pairs, failure, `KeyError` — is the meaning of the *un-optimized*
+    grammar. -/
+theorem opt_interp_agrees (g g' : Grammar) (passes : List Opt.Pass)
+    (hp : ∀ p ∈ passes, p ∈ Opt.defaultPasses) (hwf : WF g) (h : Opt.optimize g passes = some g')
+    (start : String) (hs : g.lookup start ≠ none) (inp : Input) (k : Nat) (hk : k ≤ inp.size) (fuel : Nat) :
+    match L1.parse g' inp fuel start k with
+    | .oof => True
+    | .exc e => e = .keyError ∧ Conv g inp (.ident start none) (s0 k) .stuck
+    | .done true c ps =>
+      ∃ s, Conv g inp (.ident start none) (s0 k) (.ok s (eraseTagsL ps)) ∧ s.pos = c.pos ∧ s.stk = c.ustack.items
+    | .done false _ ps => Conv g inp (.ident start none) (s0 k) .fail ∧ ps = [] := by
+  have hst := optimized_skip_total g g' passes hp hwf h
+  have hsound := optimizer_sound g g' passes hp hwf h start hs inp k hk
+  have hc := C03.parse_agrees_with_spec g' inp hst fuel start k
+  rw [parse_eq_run] at hc
+  revert hc
+  cases L1.parse g' inp fuel start k with
+  | oof => intro _; trivial
+  | exc e =>
+    intro hc
+    exact ⟨hc.1, (hsound _).2 ⟨fuel + 1, hc.2, by simp⟩⟩
+  | done m c ps =>
+    cases m with
+    | true =>
+      intro hc
+      obtain ⟨s, h1, h2, h3⟩ := hc
+      exact ⟨s, (hsound _).2 ⟨fuel + 1, h1, by simp⟩, h2, h3⟩
+    | false =>
+      intro hc
+      exact ⟨(hsound _).2 ⟨fuel + 1, hc.1, by simp⟩, hc.2⟩
+
+/-- … and then the interpreter on the un-optimized rules gives the same verdict, the same end
+    position and the same pairs (up to tags), with every sufficiently large recursion budget. -/
+theorem opt_interp_vs_plain (g g' : Grammar) (passes : List Opt.Pass)
+    (hp : ∀ p ∈ passes, p ∈ Opt.defaultPasses) (hwf : WF g) (h : Opt.optimize g passes = some g')
+    (start : String) (hs : g.lookup start ≠ none) (inp : Input) (k : Nat) (hk : k ≤ inp.size) (fuel : Nat)
+    (m : Bool) (c : PState) (ps : List Pair) (hr : L1.parse g' inp fuel start k = .done m c ps) :
+    ∃ fuel0, ∀ f, fuel0 ≤ f → ∃ c1 ps1, L1.parse g inp f start k = .done m c1 ps1 ∧
+      eraseTagsL ps1 = eraseTagsL ps ∧ (m = true → c1.pos = c.pos) := by
+  have ha := opt_interp_agrees g g' passes hp hwf h start hs inp k hk fuel
+  rw [hr] at ha
+  have hst : SkipTotal g := by
+    intro r hr; rw [hwf.fused] at hr; exact absurd hr (by simp)
+  cases m with
+  | true =>
+    obtain ⟨s, ⟨n, hn, hne⟩, h2, _⟩ := ha
+    refine ⟨n, fun f hf => ?_⟩
+    have hc := C03.parse_agrees_with_spec g inp hst f start k
+    rw [parse_eq_run, Conv.mono g inp hn hne (by omega : n ≤ f + 1)] at hc
+    revert hc
+    cases L1.parse g inp f start k with
+    | oof => intro hc; exact absurd hc (by simp)
+    | exc e => intro hc; exact absurd hc.2 (by simp)
+    | done m1 c1 ps1 =>
+      cases m1 with
+      | true =>
+        intro hc
+        obtain ⟨s1, h1, h3, _⟩ := hc
+        simp only [R0.ok.injEq] at h1
+        exact ⟨c1, ps1, rfl, h1.2.symm, fun _ => by rw [← h3, ← h1.1, h2]⟩
+      | false => intro hc; exact absurd hc.1 (by simp)
+  | false =>
+    obtain ⟨⟨n, hn, hne⟩, hps⟩ := ha
+    refine ⟨n, fun f hf => ?_⟩
+    have hc := C03.parse_agrees_with_spec g inp hst f start k
+    rw [parse_eq_run, Conv.mono g inp hn hne (by omega : n ≤ f + 1)] at hc
+    revert hc
+    cases L1.parse g inp f start k with
+    | oof => intro hc; exact absurd hc (by simp)
+    | exc e => intro hc; exact absurd hc.2 (by simp)
+    | done m1 c1 ps1 =>
+      cases m1 with
+      | true => intro hc; obtain ⟨s1, h1, _⟩ := hc; exact absurd h1 (by simp)
+      | false =>
+        intro hc
+        exact ⟨c1, ps1, rfl, by rw [hc.2, hps], fun h => absurd h (by simp)⟩
+
+/-- **Code generated from the optimized rules.**  Whatever the generated module's `parse()`
+    answers is the meaning of the un-optimized grammar (and exactly what the interpreter on the
+    optimized rules answers: C01). -/
+theorem optgen_agrees (g g' : Grammar) (passes : List Opt.Pass)
+    (hp : ∀ p ∈ passes, p ∈ Opt.defaultPasses) (hwf : WF g) (h : Opt.optimize g passes = some g')
+    (start : String) (hs : g.lookup start ≠ none) (inp : Input) (k : Nat) (hk : k ≤ inp.size) (fuel : Nat) :
+    match LG.parse g' inp fuel start k with
+    | .done true cg ps =>
+      ∃ s, Conv g inp (.ident start none) (s0 k) (.ok s (eraseTagsL ps)) ∧ s.pos = cg.pos
+    | .done false _ _ => Conv g inp (.ident start none) (s0 k) .fail
+    | _ => True := by
+  have hst := optimized_skip_total g g' passes hp hwf h
+  have hgen := C01.generated_parse_eq g' inp hst fuel start k
+  have hint := opt_interp_agrees g g' passes hp hwf h start hs inp k hk fuel
+  revert hgen
+  cases LG.parse g' inp fuel start k with
+  | oof => intro _; trivial
+  | exc e => intro _; trivial
+  | done m cg ps =>
+    cases m with
+    | true =>
+      intro hgen
+      obtain ⟨c1, h1, h2⟩ := hgen
+      rw [h1] at hint
+      obtain ⟨s, hc, hpos, _⟩ := hint
+      exact ⟨s, hc, by rw [hpos, h2]⟩
+    | false =>
+      intro hgen
+      obtain ⟨c1, ps1, h1, _⟩ := hgen
+      rw [h1] at hint
+      exact hint.1
+
+/-! ### Non-vacuity: a grammar on which every pass and the fusion rewrite something -/
+
+def anyN : Expr := .rule "ANY" 2 true .anyB
+def digitN : Expr := .rule "ASCII_DIGIT" 2 true (.range 48 57)
+
+/-- `WHITESPACE = _{ " " | "\t" }`, `r = { "a" ~ d+ ~ s? ~ tail }`, `d = _{ ASCII_DIGIT }`,
+    `s = _{ "x" | "y" }`, `tail = @{ (!("/" | "#") ~ ANY)* }` -/
+def demoG : Grammar :=
+  { rules := [
+      ⟨"WHITESPACE", SILENT, .choice [.str [32], .str [9]], .grammar⟩,
+      ⟨"r", 0, .seq [.str [97], .rep1 (.ident "d" none), .opt (.ident "s" none), .ident "tail" none], .grammar⟩,
+      ⟨"d", SILENT, digitN, .grammar⟩,
+      ⟨"s", SILENT, .choice [.str [120], .str [121]], .grammar⟩,
+      ⟨"tail", ATOMIC,
+        .rep (.group (.seq [.notP (.group (.choice [.str [47], .str [35]]) none), anyN]) none), .grammar⟩] }
+
+def optG (g : Grammar) : Grammar := (Opt.optimize g Opt.defaultPasses).getD g
+
+example : wfCheck demoG = true := by decide +kernel
+
+/-- what the default optimizer makes of `demoG`: the fused `SKIP`, the unrolled and inlined `r`,
+    the squashed `s`, the `SkipUntil` in `tail` -/
+def demoRewritten (g' : Grammar) : Bool :=
+  (match g'.lookup "SKIP" with
+   | some ⟨_, 6, .optChoice [.lit [32] false, .lit [9] false] true, _⟩ => true | _ => false) &&
+  (match g'.lookup "r" with
+   | some ⟨_, _, .seq [.str [97], .seq [.range 48 57, .rep (.range 48 57)],
+        .opt (.optChoice [.lit [120] false, .lit [121] false] false), .ident "tail" none], _⟩ => true
+   | _ => false) &&
+  (match g'.lookup "tail" with | some ⟨_, _, .skipUntil [[47], [35]], _⟩ => true | _ => false)
+
+example : (Opt.optimize demoG Opt.defaultPasses).isSome = true ∧ demoRewritten (optG demoG) = true := by
+  decide +kernel
+
+def endOf : R0 → Option (Nat × Nat)
+  | .ok s ps => some (s.pos, ps.length)
+  | _ => none
+
+/-- `a 12 y  hello/…`: both grammars consume up to the `/` and yield one pair -/
+example : endOf (L0.parse demoG #[97, 32, 49, 50, 32, 121, 32, 104, 105, 47, 33] 30 "r" 0) = some (9, 1) ∧
+    endOf (L0.parse (optG demoG) #[97, 32, 49, 50, 32, 121, 32, 104, 105, 47, 33] 30 "r" 0) = some (9, 1) := by
+  decide +kernel
+
+/-- a COMMENT-only grammar (fusion `SKIP = Repeat(COMMENT.expression)`), a built-in whose
+    `with_children` makes a new object (`NEWLINE`), and an explicit reference to the silent trivia
+    rule inside an atomic rule -/
+def newlineN : Expr := .rule "NEWLINE" 2 false (.choice [.str [10], .str [13, 10], .str [13]])
+
+def demoG2 : Grammar :=
+  { rules := [
+      ⟨"COMMENT", SILENT, .seq [.str [35], .rep (.group (.seq [.notP newlineN, anyN]) none)], .grammar⟩,
+      ⟨"line", 0, .seq [.ident "word" none, .rep (.ident "word" none), newlineN], .grammar⟩,
+      ⟨"word", ATOMIC, .seq [.rep1 (.rule "ASCII_ALPHA" 2 true (.choice [.range 97 122, .range 65 90])),
+                             .opt (.ident "COMMENT" none)], .grammar⟩] }
+
+example : wfCheck demoG2 = true ∧ (Opt.optimize demoG2 Opt.defaultPasses).isSome = true ∧
+    (match (optG demoG2).lookup "SKIP", (optG demoG2).lookup "word" with
+     | some ⟨_, 6, .rep (.seq [.str [35], .skipUntil [[10], [13, 10], [13]]]), _⟩,
+       some ⟨_, _, .seq [.seq [.optChoice _ false, .rep (.optChoice _ false)],
+                        .opt (.seq [.str [35], .skipUntil [[10], [13, 10], [13]]])], _⟩ => true
+     | _, _ => false) = true := by decide +kernel
+
+example : endOf (L0.parse demoG2 #[97, 98, 35, 120, 10, 99, 10] 40 "line" 0) = some (5, 1) ∧
+    endOf (L0.parse (optG demoG2) #[97, 98, 35, 120, 10, 99, 10] 40 "line" 0) = some (5, 1) := by
+  decide +kernel
+
+/-! ### Each hypothesis is needed: the mirrored optimizer changes the meaning without it -/
+
+/-- `x = @{ (!"a" ~ ANY)* }`, `y = @{ (!x ~ ANY)* }`: `x` is rewritten first, then `_skip` walks from
+    `!x` into the `SkipUntil` that `x` has become (hypothesis `notp`) -/
+def badChain : Grammar :=
+  { rules := [
+      ⟨"x", ATOMIC, .rep (.group (.seq [.notP (.str [97]), anyN]) none), .grammar⟩,
+      ⟨"y", ATOMIC, .rep (.group (.seq [.notP (.ident "x" none), anyN]) none), .grammar⟩] }
+
+example : wfCheck badChain = false ∧
+    endOf (L0.parse badChain #[98, 98, 97] 30 "y" 0) = some (0, 1) ∧
+    endOf (L0.parse (optG badChain) #[98, 98, 97] 30 "y" 0) = some (2, 1) := by decide +kernel
+
+/-- `WHITESPACE = _{ "a" ~ "b" }`, `x = { "<" ~ WHITESPACE ~ ">" }`: the silent trivia rule is atomic
+    by name; inlined into `x` its body runs with implicit trivia on (hypothesis `nodes`) -/
+def badInline : Grammar :=
+  { rules := [
+      ⟨"WHITESPACE", SILENT, .seq [.str [97], .str [98]], .grammar⟩,
+      ⟨"x", 0, .seq [.str [60], .ident "WHITESPACE" none, .str [62]], .grammar⟩] }
+
+example : wfCheck badInline = false ∧
+    endOf (L0.parse badInline #[60, 97, 97, 98, 98, 62] 30 "x" 0) = none ∧
+    endOf (L0.parse (optG badInline) #[60, 97, 97, 98, 98, 62] 30 "x" 0) = some (6, 1) := by decide +kernel
+
+/-- `WHITESPACE = _{ " " }`, `SKIP = { (!"y" ~ ANY)* }`: a grammar rule that happens to be called
+    `SKIP` is treated as atomic by `_is_atomic` (hypothesis `noSkip`) -/
+def badSkipName : Grammar :=
+  { rules := [
+      ⟨"WHITESPACE", SILENT, .str [32], .grammar⟩,
+      ⟨"SKIP", 0, .rep (.group (.seq [.notP (.str [121]), anyN]) none), .grammar⟩] }
+
+example : wfCheck badSkipName = false ∧
+    endOf (L0.parse badSkipName #[97, 32, 121] 30 "SKIP" 0) = some (1, 1) ∧
+    endOf (L0.parse (optG badSkipName) #[97, 32, 121] 30 "SKIP" 0) = some (2, 1) := by decide +kernel
+
+/-- a start position beyond the end of the input: `SkipUntil` moves it back (hypothesis `k ≤ inp.size`) -/
+def beyond : Grammar :=
+  { rules := [⟨"t", ATOMIC, .rep (.group (.seq [.notP (.str [97]), anyN]) none), .grammar⟩] }
+
+example : wfCheck beyond = true ∧
+    endOf (L0.parse beyond #[98] 30 "t" 3) = some (3, 1) ∧
+    endOf (L0.parse (optG beyond) #[98] 30 "t" 3) = some (1, 1) := by decide +kernel
 
 end C02
 end Pest
